@@ -541,6 +541,20 @@ def gen_busyretry(rnd):
     b = rnd.choice([0.2, 0.5])
     lead = rnd.choice([0.05, 0.1])
     n_cr = rnd.randint(1, 2)
+    if rnd.random() < 0.35:
+        # the siblings never await at all: a queue of blocking invocations behind one worker, each ready the moment the previous one
+        # ends, so the control loop finds a finished worker every time it looks; the retry comes due in the middle of that stretch
+        k = rnd.randint(7, 10)
+        steps = [
+            {"name": "start", "in": ["Go"], "nw": 1, "acts": [{"k": "send", "type": "EvA", "items": [{"fails": 1}]},
+                                                             {"k": "send", "type": "EvB", "items": [{} for _ in range(k)]}, {"k": "ret", "type": None}],
+             "declare": ["EvA", "EvB"]},
+            {"name": "flaky", "in": ["EvA"], "nw": 1, "retry": {"wait": {"k": "fixed", "w": w}, "stop": {"k": "attempt", "n": 3}},
+             "acts": [{"k": "fail", "n": {"from": "fails"}, "exc": "E1"}, {"k": "ret", "type": "EvC"}]},
+            {"name": "cruncher", "in": ["EvB"], "nw": 1, "acts": [{"k": "burn", "d": b}, {"k": "ret", "type": None}]},
+            {"name": "join", "in": ["EvC"], "nw": 1, "acts": [{"k": "ret", "type": "StopEvent", "result": "const"}]},
+        ]
+        return {"family": "busyretry", "steps": steps, "timeout": None, "externals": [], "meta": {"retry_wait": w, "burn": b, "spin": True, "k": k}}
     steps = [
         {"name": "start", "in": ["Go"], "nw": 1, "acts": [{"k": "send", "type": "EvA", "items": [{"fails": 1}]},
                                                          {"k": "send", "type": "EvB", "items": [{"lat": [0.1 + w - lead]} for _ in range(n_cr)]}, {"k": "ret", "type": None}],
